@@ -30,8 +30,10 @@ CHECKS = {
     "C25": ("exploration",
             "every string of length <= 7 (quick) / 8 (thorough) over {a,\\n,\\r,\\t,é} x every byte offset, plus corpus and random texts, against an "
             "independent line/column model.",
-            "model counts \\n bytes; the rendered diagnostic header is checked on real compilations in the C06/C07 pipeline runs",
-            "runtime monitoring: exhaustive small-scope differential check of LineIndex against a reference model; a sample of the same run is interpreted by Miri",
+            "model counts \\n bytes; headers: every diagnostic rendered (Diagnostic::display) for 64 / 400 erroneous programs laid out with \\r\\n, tabs and "
+            "multi-byte text is compared with model(range start) + 1 (the probe pipeline reports the range start and the rendered header)",
+            "runtime monitoring: exhaustive small-scope differential check of LineIndex against a reference model + monitor on the rendered `--> at file:line:col` "
+            "header of real compilations; a sample of the LineIndex run is interpreted by Miri",
             "probe", "4/C25"),
     "C26": ("exploration",
             "breadth-first exploration of all protocol-conforming histories (<= 3/4 items, <= 8 rounds) of the real TopoSort in lock-step with a "
